@@ -53,11 +53,6 @@ Section Proofs.
     goals c = map (cfill (items s)) (slots (items s)) /\ goals_bt c = gbounds (snd s) /\
     msg c = soft_index 0 (slots (items s)) /\ MB (items s) (snd s) (msgb c).
 
-  (* every live MaxSMT goal has a backtrack entry (false right after an assert-soft that
-     creates a goal; true again after the next push) *)
-  Definition AllKeys (s : astack) (c : st) : Prop :=
-    forall k, softs k (items s) <> [] -> lookup k (msgb c) <> None.
-
   (* ---- list facts ------------------------------------------------------------------- *)
   Lemma soft_index_app p (a b : list (slot F)) :
     soft_index p (a ++ b) = soft_index p a ++ soft_index (p + length a) b.
@@ -250,7 +245,7 @@ Section Proofs.
     - apply Nat.eqb_neq in E. rewrite lookup_dset_other by congruence. reflexivity.
   Qed.
 
-  Lemma inv_push1 s c : Inv s c -> Inv (s_push1 s) (push1 c) /\ AllKeys (s_push1 s) (push1 c).
+  Lemma inv_push1 s c : Inv s c -> Inv (s_push1 s) (push1 c).
   Proof.
     intros (I1 & I2 & I3 & I4 & I5 & I6).
     assert (K : forall k, lookup k (msgb (push1 c)) =
@@ -265,31 +260,20 @@ Section Proofs.
           symmetry. apply I6. now apply in_ids_slots.
         + rewrite I3, E1, map_app. cbn [map]. rewrite nth_map_exact. reflexivity.
       - apply existsb_ids_false in E. now rewrite lookup_soft_index_none. }
-    split.
-    - unfold Inv. rewrite items_push1. destruct s as [cur e]. cbn [s_push1 fst snd push1 stack backtrack goals goals_bt msg].
-      cbn [abounds gbounds]. split; [exact I1|]. split; [now rewrite I2, I1|]. split; [exact I3|].
-      split; [now rewrite I4, I3, map_length|]. split; [exact I5|].
-      intros k. rewrite K. cbn [snd]. destruct (existsb (is_ssoft k) (slots (items (cur, e)))) eqn:E.
-      + apply existsb_ids, in_ids_slots in E. split; [exact E|]. cbn [sbounds].
-        destruct (softs k (items (cur, e))); [congruence|reflexivity].
-      + apply existsb_ids_false in E. rewrite in_ids_slots in E.
-        specialize (I6 k). destruct (lookup k (msgb c)); [tauto|]. tauto.
-    - intros k. rewrite items_push1. intros H. rewrite K.
-      apply in_ids_slots, existsb_ids in H. rewrite H. discriminate.
+    unfold Inv. rewrite items_push1. destruct s as [cur e]. cbn [s_push1 fst snd push1 stack backtrack goals goals_bt msg].
+    cbn [abounds gbounds]. split; [exact I1|]. split; [now rewrite I2, I1|]. split; [exact I3|].
+    split; [now rewrite I4, I3, map_length|]. split; [exact I5|].
+    intros k. rewrite K. cbn [snd]. destruct (existsb (is_ssoft k) (slots (items (cur, e)))) eqn:E.
+    - apply existsb_ids, in_ids_slots in E. split; [exact E|]. cbn [sbounds].
+      destruct (softs k (items (cur, e))); [congruence|reflexivity].
+    - apply existsb_ids_false in E. rewrite in_ids_slots in E.
+      specialize (I6 k). destruct (lookup k (msgb c)); [tauto|]. tauto.
   Qed.
 
   Lemma inv_push n : forall s c, Inv s c -> Inv (s_push n s) (iter n (push1) c).
   Proof.
     induction n as [|n IH]; intros s c I; cbn [s_push iter]; [exact I|].
     apply IH. now apply inv_push1.
-  Qed.
-
-  Lemma allkeys_push n : forall s c, Inv s c -> AllKeys (s_push (S n) s) (iter (S n) (push1) c).
-  Proof.
-    induction n as [|n IH]; intros s c I.
-    - cbn [s_push iter]. now apply inv_push1.
-    - change (AllKeys (s_push (S n) (s_push1 s)) (iter (S n) (push1) (push1 c))).
-      apply IH. now apply inv_push1.
   Qed.
 
   (* ---- pop --------------------------------------------------------------------------- *)
@@ -348,22 +332,14 @@ Section Proofs.
 
   Fixpoint ddels {V} (ks : list nat) (m : list (nat * V)) : list (nat * V) :=
     match ks with [] => m | k :: r => ddels r (ddel k m) end.
-  Lemma del_goal_step m mb k :
-    del_goal (Ok (m, mb)) k =
-    match lookup k mb with None => Err KeyError | Some _ => Ok (ddel k m, ddel k mb) end.
+  Lemma del_goal_step m mb k : del_goal (Ok (m, mb)) k = Ok (ddel k m, ddel k mb).
   Proof. reflexivity. Qed.
 
-  Lemma del_fold_err ks e :
-    fold_left del_goal ks (@Err (list (nat * nat) * list (nat * list nat)) e) = Err e.
-  Proof. induction ks; cbn; auto. Qed.
-
-  Lemma del_fold_inv ks : forall m mb d,
-    fold_left del_goal ks (Ok (m, mb)) = Ok d -> d = (@ddels nat ks m, ddels ks mb).
+  Lemma del_fold_ok ks : forall m mb,
+    fold_left del_goal ks (Ok (m, mb)) = Ok (@ddels nat ks m, ddels ks mb).
   Proof.
-    induction ks as [|k ks IH]; intros m mb d H; cbn [fold_left] in H.
-    - now injection H as <-.
-    - rewrite del_goal_step in H. destruct (lookup k mb); [|rewrite del_fold_err in H; discriminate].
-      apply IH in H. exact H.
+    induction ks as [|k ks IH]; intros m mb; cbn [fold_left ddels]; [reflexivity|].
+    rewrite del_goal_step. apply IH.
   Qed.
 
   Lemma lookup_ddels_notin {V} ks : forall (m : list (nat * V)) j, ~ In j ks -> lookup j (ddels ks m) = lookup j m.
@@ -389,16 +365,6 @@ Section Proofs.
     destruct (Nat.eq_dec k j) as [->|N].
     - apply lookup_ddels_none. apply lookup_ddel_same.
     - apply IH. destruct H; [congruence|assumption].
-  Qed.
-
-  Lemma del_fold_ok ks : forall m mb, NoDup ks -> (forall k, In k ks -> lookup k mb <> None) ->
-    fold_left del_goal ks (Ok (m, mb)) = Ok (@ddels nat ks m, ddels ks mb).
-  Proof.
-    induction ks as [|k ks IH]; intros m mb ND H; cbn [fold_left ddels]; [reflexivity|].
-    apply NoDup_cons_iff in ND. destruct ND as [Nk ND]. rewrite del_goal_step.
-    destruct (lookup k mb) eqn:E; [|exfalso; apply (H k); [now left|exact E]].
-    apply IH; [exact ND|]. intros j Hj.
-    rewrite lookup_ddel_other by (intros ->; tauto). apply H. now right.
   Qed.
 
   Lemma ddel_notin {V} k (m : list (nat * V)) : ~ In k (map fst m) -> ddel k m = m.
@@ -483,8 +449,6 @@ Section Proofs.
     (forall i, ~ In i (ids (slots (items (l, e)))) -> lookup i mb' = lookup i (msgb c)) ->
     m2 = ddels (ids t) (msg c) -> mb2 = ddels (ids t) mb' ->
     Inv (l, e) (mkSt (asserts (items (l, e))) (abounds e)
-                     (map (cfill (items (l, e))) (slots (items (l, e)))) (gbounds e) m2 mb2) /\
-    AllKeys (l, e) (mkSt (asserts (items (l, e))) (abounds e)
                      (map (cfill (items (l, e))) (slots (items (l, e)))) (gbounds e) m2 mb2).
   Proof.
     intros (I1 & I2 & I3 & I4 & I5 & I6) Et M H1 H2 -> ->. cbn [snd] in *.
@@ -504,172 +468,68 @@ Section Proofs.
         specialize (I6 k). destruct (lookup k (msgb c)); [|reflexivity].
         destruct I6 as [I6 _]. exfalso. apply in_ids_slots in I6. rewrite items_cons in I6. fold P in I6.
         rewrite Et, ids_app in I6. apply in_app_or in I6. tauto. }
-    split.
-    - unfold Inv. cbn [stack backtrack goals goals_bt msg msgb snd]. fold P.
-      repeat (split; [reflexivity|]). split.
-      + rewrite M, ddels_app. rewrite ddels_notin, ddels_all.
-        * apply app_nil_r.
-        * intros j. now rewrite map_fst_soft_index.
-        * intros k Hk. rewrite map_fst_soft_index. now apply DJ.
-      + intros k. rewrite LK. destruct (existsb (is_ssoft k) (slots P)) eqn:E.
-        * apply existsb_ids, in_ids_slots in E. split; [exact E|reflexivity].
-        * apply existsb_ids_false in E. rewrite in_ids_slots in E. tauto.
-    - intros k. cbn [msgb]. fold P. intros H. rewrite LK.
-      apply in_ids_slots, existsb_ids in H. rewrite H. discriminate.
+    unfold Inv. cbn [stack backtrack goals goals_bt msg msgb snd]. fold P.
+    repeat (split; [reflexivity|]). split.
+    - rewrite M, ddels_app. rewrite ddels_notin, ddels_all.
+      + apply app_nil_r.
+      + intros j. now rewrite map_fst_soft_index.
+      + intros k Hk. rewrite map_fst_soft_index. now apply DJ.
+    - intros k. rewrite LK. destruct (existsb (is_ssoft k) (slots P)) eqn:E.
+      + apply existsb_ids, in_ids_slots in E. split; [exact E|reflexivity].
+      + apply existsb_ids_false in E. rewrite in_ids_slots in E. tauto.
   Qed.
 
-  Lemma pop1_partial s s' c c' : Inv s c -> s_pop1 s = Some s' -> pop1 c = Ok c' ->
-    Inv s' c' /\ AllKeys s' c'.
+  Lemma pop1_total s s' c : Inv s c -> s_pop1 s = Some s' ->
+    exists c', pop1 c = Ok c' /\ Inv s' c'.
   Proof.
-    intros I E H. destruct s as [cur e]. unfold s_pop1 in E. cbn [snd] in E.
+    intros I E. destruct s as [cur e]. unfold s_pop1 in E. cbn [snd] in E.
     destruct e as [|l e]; [discriminate|]. injection E as <-.
     destruct (pop1_shape cur l e c I) as (mb' & t & Et & EP & M & H1 & H2).
-    rewrite EP in H. destruct (fold_left del_goal (ids t) (Ok (msg c, mb'))) as [d|] eqn:ED; [|discriminate].
-    cbn [bind] in H. injection H as <-. apply del_fold_inv in ED. subst d. cbn [fst snd].
+    rewrite EP, del_fold_ok. cbn [bind fst snd]. eexists. split; [reflexivity|].
     eapply pop1_result; eauto.
   Qed.
 
-  Lemma pop1_total s s' c : Inv s c -> AllKeys s c -> s_pop1 s = Some s' ->
-    exists c', pop1 c = Ok c' /\ Inv s' c' /\ AllKeys s' c'.
+  Lemma pop_total n : forall s s' c, Inv s c -> s_pop n s = Some s' ->
+    exists c', iter_res n pop1 c = Ok c' /\ Inv s' c'.
   Proof.
-    intros I A E. destruct s as [cur e]. unfold s_pop1 in E. cbn [snd] in E.
-    destruct e as [|l e]; [discriminate|]. injection E as <-.
-    destruct (pop1_shape cur l e c I) as (mb' & t & Et & EP & M & H1 & H2).
-    assert (ND : NoDup (ids (slots (items (l, e))) ++ ids t)).
-    { rewrite <- ids_app, <- Et, <- items_cons. apply nodup_ids_slots. }
-    rewrite EP, del_fold_ok.
-    - cbn [bind fst snd]. eexists. split; [reflexivity|]. eapply pop1_result; eauto.
-    - now apply NoDup_app_r16 in ND.
-    - intros k Hk. rewrite H2.
-      + apply A. rewrite items_cons. apply in_ids_slots. rewrite Et, ids_app. apply in_or_app. now right.
-      + intros Hp. exact (NoDup_app_disj16 _ _ k ND Hp Hk).
-  Qed.
-
-  Lemma pop_partial n : forall s s' c c', Inv s c -> s_pop n s = Some s' ->
-    iter_res n (pop1) c = Ok c' -> Inv s' c' /\ (n <> 0 -> AllKeys s' c').
-  Proof.
-    induction n as [|n IH]; intros s s' c c' I E H; cbn in E, H.
-    - injection E as <-. injection H as <-. split; [exact I|congruence].
+    induction n as [|n IH]; intros s s' c I E; cbn in E.
+    - injection E as <-. exists c. split; [reflexivity|assumption].
     - destruct (s_pop1 s) as [s1|] eqn:E1; [|discriminate].
-      destruct (pop1 c) as [c1|] eqn:E2; [|discriminate]. cbn [bind] in H.
-      destruct (pop1_partial s s1 c c1 I E1 E2) as [I1 A1].
-      destruct (IH s1 s' c1 c' I1 E H) as [I2 A2]. split; [exact I2|]. intros _.
-      destruct n; [|now apply A2]. cbn in E, H. injection E as <-. injection H as <-. exact A1.
-  Qed.
-
-  Lemma pop_total n : forall s s' c, Inv s c -> AllKeys s c -> s_pop n s = Some s' ->
-    exists c', iter_res n (pop1) c = Ok c' /\ Inv s' c' /\ AllKeys s' c'.
-  Proof.
-    induction n as [|n IH]; intros s s' c I A E; cbn in E.
-    - injection E as <-. exists c. split; [reflexivity|split; assumption].
-    - destruct (s_pop1 s) as [s1|] eqn:E1; [|discriminate].
-      destruct (pop1_total s s1 c I A E1) as (c1 & E2 & I1 & A1).
-      destruct (IH s1 s' c1 I1 A1 E) as (c' & E3 & I2 & A2).
-      exists c'. cbn [iter_res]. rewrite E2. cbn [bind]. split; [exact E3|split; assumption].
+      destruct (pop1_total s s1 c I E1) as (c1 & E2 & I1).
+      destruct (IH s1 s' c1 I1 E) as (c' & E3 & I2).
+      exists c'. cbn [iter_res]. rewrite E2. cbn [bind]. split; assumption.
   Qed.
 
   (* ---- the whole replay -------------------------------------------------------------- *)
   Lemma inv_init : Inv s_init (@st0 F W).
   Proof. unfold Inv. cbn. repeat (split; [reflexivity|]). intros k. cbn. tauto. Qed.
 
-  (* partial correctness of one step: if it returns, it returns the right state *)
-  Lemma step_partial s c x s' c' : Inv s c -> s_step s x = Some s' -> step c x = Ok c' -> Inv s' c'.
+  (* every legal step succeeds and keeps the state tied to the spec *)
+  Lemma step_total s c x s' : Inv s c -> s_step s x = Some s' ->
+    exists c', step c x = Ok c' /\ Inv s' c'.
   Proof.
-    intros I E H. destruct x as [f|i f w|k f|n|n| | | ]; cbn [s_step] in E.
-    - injection E as <-. cbn in H. injection H as <-. now apply inv_assert.
+    intros I E. destruct x as [f|i f w|k f|n|n| | | ]; cbn [s_step] in E.
+    - injection E as <-. eexists. split; [reflexivity|]. now apply inv_assert.
     - injection E as <-.
       destruct (in_dec Nat.eq_dec i (ids (slots (items s)))) as [Hi|Hi].
-      + destruct (soft_step_old s c i f w I Hi) as (c1 & E1 & _ & I1). congruence.
-      + destruct (soft_step_new s c i f w I Hi) as (E1 & I1). congruence.
-    - injection E as <-. cbn in H. injection H as <-. now apply inv_obj.
-    - injection E as <-. cbn in H. injection H as <-. now apply inv_push.
-    - cbn in H. eapply pop_partial; eauto.
-    - injection E as <-. cbn in H. injection H as <-. apply inv_init.
-    - injection E as <-. cbn in H. now injection H as <-.
-    - injection E as <-. cbn in H. now injection H as <-.
+      + destruct (soft_step_old s c i f w I Hi) as (c1 & E1 & _ & I1). exists c1. split; assumption.
+      + destruct (soft_step_new s c i f w I Hi) as (E1 & I1). eexists. split; [exact E1|exact I1].
+    - injection E as <-. eexists. split; [reflexivity|]. now apply inv_obj.
+    - injection E as <-. eexists. split; [reflexivity|]. now apply inv_push.
+    - exact (pop_total n s s' c I E).
+    - injection E as <-. eexists. split; [reflexivity|]. apply inv_init.
+    - injection E as <-. exists c. split; [reflexivity|assumption].
+    - injection E as <-. exists c. split; [reflexivity|assumption].
   Qed.
 
-  Lemma run_partial cs : forall s c s' c', Inv s c -> s_run s cs = Some s' -> run c cs = Ok c' -> Inv s' c'.
+  Lemma run_total cs : forall s c s', Inv s c -> s_run s cs = Some s' ->
+    exists c', run c cs = Ok c' /\ Inv s' c'.
   Proof.
-    induction cs as [|x cs IH]; intros s c s' c' I E H; cbn in E, H.
-    - injection E as <-. now injection H as <-.
-    - destruct (s_step s x) as [s1|] eqn:E1; [|discriminate].
-      destruct (step c x) as [c1|] eqn:E2; [|discriminate]. cbn [bind] in H.
-      eapply IH; [|exact E|exact H]. eapply step_partial; eauto.
-  Qed.
-
-  (* The crash-freedom side condition, on the spec side plus one bit: `fresh` = some live
-     MaxSMT goal was created since the last push / pop / reset-assertions.  A pop in that
-     situation is the (only) legal case in which get_last_formula raises. *)
-  Definition fresh_step (s : astack) (fr : bool) (x : cmd) : option bool :=
-    match x with
-    | CAssertSoft i _ _ => Some (fr || match softs i (items s) with [] => true | _ => false end)
-    | CPush (S _) => Some false
-    | CPop (S _) => if fr then None else Some false
-    | CReset => Some false
-    | _ => Some fr
-    end.
-  Fixpoint safe (s : astack) (fr : bool) (cs : list cmd) : bool :=
-    match cs with
-    | [] => true
-    | x :: r => match s_step s x, fresh_step s fr x with
-                | Some s', Some fr' => safe s' fr' r
-                | _, _ => false
-                end
-    end.
-
-  Definition FreshInv (s : astack) (c : st) (fr : bool) : Prop := fr = false -> AllKeys s c.
-
-  Lemma allkeys_ext s s' c c' :
-    (forall k, softs k (items s') <> [] -> softs k (items s) <> []) -> msgb c' = msgb c ->
-    AllKeys s c -> AllKeys s' c'.
-  Proof. intros H E A k Hk. rewrite E. apply A. now apply H. Qed.
-
-  Lemma step_total s c x s' fr fr' : Inv s c -> FreshInv s c fr -> s_step s x = Some s' ->
-    fresh_step s fr x = Some fr' -> exists c', step c x = Ok c' /\ Inv s' c' /\ FreshInv s' c' fr'.
-  Proof.
-    intros I A E Fs. destruct x as [f|i f w|k f|n|n| | | ]; cbn [s_step] in E; cbn [fresh_step] in Fs.
-    - injection E as <-. injection Fs as <-. eexists. split; [reflexivity|]. split; [now apply inv_assert|].
-      intros ->. eapply allkeys_ext; [| |apply A; reflexivity]; [|reflexivity].
-      intros j. rewrite items_add, softs_snoc. now rewrite app_nil_r.
-    - injection E as <-. injection Fs as <-.
-      destruct (in_dec Nat.eq_dec i (ids (slots (items s)))) as [Hi|Hi].
-      + destruct (soft_step_old s c i f w I Hi) as (c1 & E1 & EM & I1).
-        exists c1. split; [exact E1|]. split; [exact I1|].
-        apply in_ids_slots in Hi. destruct (softs i (items s)) eqn:ES; [congruence|].
-        rewrite orb_false_r. intros ->. eapply allkeys_ext; [|exact EM|apply A; reflexivity].
-        intros j. rewrite items_add, softs_snoc. destruct (Nat.eqb i j) eqn:E2.
-        * apply Nat.eqb_eq in E2. subst j. intros _. rewrite ES. discriminate.
-        * now rewrite app_nil_r.
-      + destruct (soft_step_new s c i f w I Hi) as (E1 & I1).
-        eexists. split; [exact E1|]. split; [exact I1|].
-        rewrite in_ids_slots in Hi. destruct (softs i (items s)); [|exfalso; apply Hi; discriminate].
-        rewrite orb_true_r. intros X. discriminate.
-    - injection E as <-. injection Fs as <-. eexists. split; [reflexivity|]. split; [now apply inv_obj|].
-      intros ->. eapply allkeys_ext; [| |apply A; reflexivity]; [|reflexivity].
-      intros j. rewrite items_add, softs_snoc. now rewrite app_nil_r.
-    - injection E as <-. eexists. split; [reflexivity|]. split; [now apply inv_push|].
-      destruct n as [|n]; [injection Fs as <-; exact A|]. injection Fs as <-. intros _. now apply allkeys_push.
-    - destruct n as [|n].
-      + injection Fs as <-. cbn in E. injection E as <-. exists c. split; [reflexivity|]. split; assumption.
-      + destruct fr; [discriminate|]. injection Fs as <-.
-        destruct (pop_total (S n) s s' c I (A eq_refl) E) as (c' & E1 & I1 & A1).
-        exists c'. split; [exact E1|]. split; [exact I1|]. intros _. exact A1.
-    - injection E as <-. injection Fs as <-. eexists. split; [reflexivity|]. split; [apply inv_init|].
-      intros _ k. cbn. tauto.
-    - injection E as <-. injection Fs as <-. exists c. split; [reflexivity|]. split; assumption.
-    - injection E as <-. injection Fs as <-. exists c. split; [reflexivity|]. split; assumption.
-  Qed.
-
-  Lemma run_total cs : forall s c fr s', Inv s c -> FreshInv s c fr -> s_run s cs = Some s' ->
-    safe s fr cs = true -> exists c', run c cs = Ok c' /\ Inv s' c'.
-  Proof.
-    induction cs as [|x cs IH]; intros s c fr s' I A E S; cbn in E, S.
+    induction cs as [|x cs IH]; intros s c s' I E; cbn in E.
     - injection E as <-. exists c. split; [reflexivity|exact I].
     - destruct (s_step s x) as [s1|] eqn:E1; [|discriminate].
-      destruct (fresh_step s fr x) as [fr1|] eqn:E2; [|discriminate].
-      destruct (step_total s c x s1 fr fr1 I A E1 E2) as (c1 & E3 & I1 & A1).
-      destruct (IH s1 c1 fr1 s' I1 A1 E S) as (c' & E4 & I2).
+      destruct (step_total s c x s1 I E1) as (c1 & E3 & I1).
+      destruct (IH s1 c1 s' I1 E) as (c' & E4 & I2).
       exists c'. split; [|exact I2]. cbn [run]. rewrite E3. exact E4.
   Qed.
 
@@ -680,135 +540,70 @@ Section Proofs.
     rewrite map_map. now rewrite I1, I3.
   Qed.
 
-  (* MAIN (script), partial correctness: on every legal command list, whatever
-     get_last_formula returns is exactly (live assertions, live goals). *)
-  Theorem last_formula_partial : forall cs s r,
-    s_run s_init cs = Some s -> get_last_formula cs = Ok r ->
-    r = (live_assertions s, map erase (live_goals s)).
-  Proof.
-    intros cs s r E H. unfold get_last_formula in H.
-    destruct (run st0 cs) as [c|] eqn:ER; [|discriminate]. cbn [bind] in H. injection H as <-.
-    apply inv_report. eapply run_partial; [apply inv_init|exact E|exact ER].
-  Qed.
-
-  (* ... and it does return when no pop happens while a freshly created MaxSMT goal is live *)
-  Theorem last_formula_total : forall cs s,
-    s_run s_init cs = Some s -> safe s_init false cs = true ->
+  (* MAIN (script): on every legal command list get_last_formula returns, and what it
+     returns is exactly (live assertions, live goals). *)
+  Theorem last_formula_live : forall cs s,
+    s_run s_init cs = Some s ->
     get_last_formula cs = Ok (live_assertions s, map erase (live_goals s)).
   Proof.
-    intros cs s E S.
-    destruct (run_total cs s_init st0 false s inv_init) as (c & ER & I); [|exact E|exact S|].
-    - intros _ k. cbn. tauto.
-    - unfold get_last_formula. rewrite ER. cbn [bind]. f_equal. now apply inv_report.
-  Qed.
-
-  (* scripts without assert-soft are safe *)
-  Definition no_soft (x : cmd) : bool := match x with CAssertSoft _ _ _ => false | _ => true end.
-  Lemma no_soft_safe cs : forall s, forallb no_soft cs = true -> s_run s cs <> None -> safe s false cs = true.
-  Proof.
-    induction cs as [|x cs IH]; intros s H L; cbn in *; [reflexivity|].
-    apply andb_true_iff in H. destruct H as [H1 H2].
-    destruct (s_step s x) as [s1|] eqn:E; [|congruence].
-    destruct x as [f|i f w|k f|n|n| | | ]; cbn [fresh_step]; try discriminate; try (now apply IH).
-    - destruct n; now apply IH.
-    - destruct n; now apply IH.
-  Qed.
-
-  Theorem last_formula_no_soft : forall cs s,
-    forallb no_soft cs = true -> s_run s_init cs = Some s ->
-    get_last_formula cs = Ok (live_assertions s, map erase (live_goals s)).
-  Proof.
-    intros cs s N E. apply last_formula_total; [exact E|]. apply no_soft_safe; [exact N|]. congruence.
+    intros cs s E.
+    destruct (run_total cs s_init st0 s inv_init E) as (c & ER & I).
+    unfold get_last_formula. rewrite ER. cbn [bind]. f_equal. now apply inv_report.
   Qed.
 
   (* ---- get_strict_formula ------------------------------------------------------------ *)
-  (* assertions made before a later reset-assertions (`live` = those since the last one) *)
-  Fixpoint dropped (live : list F) (cs : list cmd) : list F :=
-    match cs with
-    | [] => []
-    | CAssert f :: r => dropped (live ++ [f]) r
-    | CReset :: r => live ++ dropped [] r
-    | _ :: r => dropped live r
-    end.
-
-  Lemma strict_aux cs : forall cur,
-    existsb (is_push_pop) cs = false ->
+  Lemma strict_aux cs : forall cur : level,
+    existsb is_push_pop cs = false ->
     exists cur', s_run (cur, []) cs = Some (cur', []) /\
-                 asserts cur ++ assert_args cs = dropped (asserts cur) cs ++ asserts cur'.
+                 assert_args (asserts cur) cs = asserts cur'.
   Proof.
     induction cs as [|x cs IH]; intros cur H.
-    - exists cur. split; [reflexivity|]. cbn. now rewrite app_nil_r.
+    - exists cur. split; reflexivity.
     - cbn [existsb] in H. apply orb_false_iff in H. destruct H as [H1 H2].
-      destruct x as [f|i f w|k f|n|n| | | ]; try discriminate; cbn [s_run s_step assert_args dropped].
+      destruct x as [f|i f w|k f|n|n| | | ]; try discriminate; cbn [s_run s_step assert_args].
       + destruct (IH (cur ++ [IAssert f]) H2) as (cur' & E & A). exists cur'. split; [exact E|].
-        rewrite asserts_app in A. cbn in A. rewrite <- app_assoc in A. exact A.
+        rewrite asserts_app in A. exact A.
       + destruct (IH (cur ++ [ISoft i f w]) H2) as (cur' & E & A). exists cur'. split; [exact E|].
         rewrite asserts_app in A. cbn in A. rewrite app_nil_r in A. exact A.
       + destruct (IH (cur ++ [IObj k f]) H2) as (cur' & E & A). exists cur'. split; [exact E|].
         rewrite asserts_app in A. cbn in A. rewrite app_nil_r in A. exact A.
-      + destruct (IH [] H2) as (cur' & E & A). exists cur'. split; [exact E|].
-        cbn in A. rewrite A. now rewrite app_assoc.
+      + apply (IH [] H2).
       + apply IH. exact H2.
       + apply IH. exact H2.
   Qed.
 
-  (* exact characterisation: the reported list is the live assertions preceded by every
-     assertion that a reset-assertions had removed *)
-  Theorem strict_formula_exact : forall cs l, get_strict_formula cs = Ok l ->
-    exists s, s_run s_init cs = Some s /\ l = dropped [] cs ++ live_assertions s.
+  (* whenever get_strict_formula returns, the script is legal and the answer is exactly
+     the live assertions *)
+  Theorem strict_formula_live : forall (cs : list cmd) l, get_strict_formula cs = Ok l ->
+    exists s, s_run s_init cs = Some s /\ l = live_assertions s.
   Proof.
     intros cs l H. unfold get_strict_formula in H.
-    destruct (existsb (is_push_pop) cs) eqn:E; [discriminate|].
+    destruct (existsb is_push_pop cs) eqn:E; [discriminate|].
     destruct (negb _); [discriminate|]. injection H as <-.
     destruct (strict_aux cs [] E) as (cur' & R & A). exists (cur', []). split; [exact R|].
     cbn in A. exact A.
   Qed.
-
-  Definition is_reset (x : cmd) : bool := match x with CReset => true | _ => false end.
-  Lemma dropped_no_reset cs : forall live, existsb is_reset cs = false -> dropped live cs = [].
-  Proof.
-    induction cs as [|x cs IH]; intros live H; [reflexivity|].
-    cbn [existsb] in H. apply orb_false_iff in H. destruct H as [H1 H2].
-    destruct x; try discriminate; cbn [dropped]; now apply IH.
-  Qed.
-
-  Theorem strict_formula_partial : forall cs l, existsb is_reset cs = false ->
-    get_strict_formula cs = Ok l ->
-    exists s, s_run s_init cs = Some s /\ l = live_assertions s.
-  Proof.
-    intros cs l N H. destruct (strict_formula_exact cs l H) as (s & R & E).
-    exists s. split; [exact R|]. now rewrite dropped_no_reset in E.
-  Qed.
 End Proofs.
 
-Arguments erase {F W}. Arguments safe {F W}. Arguments dropped {F W}. Arguments is_reset {F W}.
-Arguments no_soft {F W}.
+Arguments erase {F W}.
 
-(* ---- the full-strength clauses are false of the faithful model: witnesses ------------- *)
-(* push 1; assert-soft a :id x; pop 1  -- legal, goal list should be empty; KeyError *)
-Definition keyerror_witness : list (cmd nat nat) := [CPush 1; CAssertSoft 1 0 1; CPop 1].
-Lemma last_formula_refuted :
-  exists cs : list (cmd nat nat), legal cs /\ get_last_formula cs = Err KeyError.
-Proof. exists keyerror_witness. split; [unfold legal; cbn; discriminate|reflexivity]. Qed.
+(* regression: the two scripts on which the code used to deviate (KeyError; assertions
+   removed by reset-assertions still reported) *)
+Example regression_soft_goal_popped :
+  get_last_formula (F:=nat) (W:=nat) [CPush 1; CAssertSoft 1 0 1; CPop 1] = Ok ([], []).
+Proof. reflexivity. Qed.
+Example regression_strict_after_reset :
+  get_strict_formula (F:=nat) (W:=nat) [CAssert 0; CReset; CAssert 1; CCheckSat] = Ok [1].
+Proof. reflexivity. Qed.
 
-(* assert a; reset-assertions; check-sat -- nothing is asserted at the end; [a] is reported *)
-Definition strict_witness : list (cmd nat nat) := [CAssert 0; CReset; CCheckSat].
-Lemma strict_formula_refuted :
-  exists (cs : list (cmd nat nat)) l s, s_run s_init cs = Some s /\
-    get_strict_formula cs = Ok l /\ l <> live_assertions s.
-Proof.
-  exists strict_witness, [0], ([], []). split; [reflexivity|]. split; [reflexivity|]. cbn. discriminate.
-Qed.
-
-(* the hypotheses of the positive theorems are satisfiable by non-trivial scripts *)
+(* the hypotheses of the theorems are satisfiable by non-trivial scripts *)
 Definition example_script : list (cmd nat nat) :=
   [CAssert 0; CAssertSoft 1 0 1; CPush 2; CAssertSoft 1 1 2; CAssertSoft 2 1 1; CObj KMin 2; CPush 1;
    CAssert 1; CPop 2; CAssertSoft 1 1 1; CCheckSat; CPop 1; CObj KMax 3].
-Example example_script_safe :
-  safe s_init false example_script = true /\
+Example example_script_legal :
+  s_run s_init example_script <> None /\
   get_last_formula example_script = Ok ([0], [RSoft [(0, 1)]; RObj KMax 3]).
-Proof. split; vm_compute; reflexivity. Qed.
+Proof. split; vm_compute; [discriminate|reflexivity]. Qed.
 Example example_strict :
-  existsb is_reset [CAssert 0; CAssertSoft 1 0 1; CCheckSat; CAssert 1] = false /\
   get_strict_formula (W:=nat) [CAssert 0; CAssertSoft 1 0 1; CCheckSat; CAssert 1] = Ok [0; 1].
-Proof. split; reflexivity. Qed.
+Proof. reflexivity. Qed.
